@@ -421,6 +421,54 @@ def r10(ctx):
     ctx.floor(rule, n, "C05.R10.calls")
 
 
+def r11(ctx):
+    rule = "C05.R11"
+    ctx.rule(rule, "an unknown extension value is an error, never another value: the index UperReader::read_enumerated / read_choice hand "
+                   "to `from_choice_index` / use to select the content is the index that was read (plus the root count for extension "
+                   "values) - it is not clamped, wrapped or masked into the range this version knows (`index.min(last_known)` delivers "
+                   "the newest known variant for every newer one)")
+    P = ctx.program()
+    n = 0
+    for fn in ("read_enumerated", "read_choice"):
+        roots = [b for b in P.lib_bodies("asn1rs") if "UperReader" in b.path and b.name == fn and b.def_kind == "AssocFn" and "Reader>::" in b.path]
+        if len(roots) != 1:
+            ctx.fail(rule, "anchor-lost:" + fn, "matched %d bodies" % len(roots))
+            continue
+        root = roots[0]
+        uses = []
+        for body in [root] + P.closures_of(root):
+            O = X.Origins(body, P)
+            for cs in body.calls():
+                if cs.name in ("from_choice_index", "read_content") and (cs.trait or "").split("::")[-1] == "Constraint":
+                    args = O.call_args(cs)
+                    idx = args[0] if cs.name == "from_choice_index" else (args[0] if len(args) == 1 else args[0])
+                    tys = cs.term.get("argtys") or []
+                    for i, a in enumerate(args):
+                        if i < len(tys) and tys[i] not in ("u64", "usize", "u32", "u16", "u8"):
+                            continue        # not the index (the reader itself)
+                        a_root = R.in_root_terms(P, body, a) if body is not root else a
+                        uses.append((cs, a_root))
+        if not uses:
+            ctx.fail(rule, fn + "#anchor-lost:index-use", "%s no longer selects a variant by index" % fn, "%s:%d" % (root.file, root.line))
+            continue
+        for cs, a in uses:
+            bad = None
+            for e in X.walk(a):
+                if e[0] == "call" and X.last_seg(e[1] or "") in ("min", "clamp", "rem_euclid", "wrapping_rem", "checked_rem"):
+                    bad = X.last_seg(e[1])
+                elif e[0] == "bin" and X.norm_op(e[1]) in ("Rem", "BitAnd"):
+                    bad = X.norm_op(e[1])
+            n += 1
+            d = {"function": root.path, "call": cs.loc(), "index": F.rd(R.positional(a))[:200]}
+            if bad:
+                ctx.fail(rule, fn + "#index-altered", "the index read from the wire passes through `%s` before the variant is selected: a "
+                                                      "value this version does not know is delivered as another value instead of failing"
+                         % bad, cs.loc(), d)
+            else:
+                ctx.ok(rule, fn + "#index", d)
+    ctx.floor(rule, n, "C05.R11.uses")
+
+
 def run(ctx):
     r1_r2(ctx)
     r3(ctx)
@@ -428,5 +476,6 @@ def run(ctx):
     r5(ctx)
     r8(ctx)
     r10(ctx)
+    r11(ctx)
     from .c16 import r7 as choice_tag_from_root_alternatives
     choice_tag_from_root_alternatives(ctx, rule="C05.R7")
